@@ -35,18 +35,28 @@ def plan(tier, seed):
     # transfers cheaper than duplications (hgt < dup, hgt = 0): the regime in which a mis-priced transfer wins outright
     # instead of through a tie
     cheap_hgt = [(0, 3, 2, 1, 1), (0, 1, 0, 1, 1), (1, 2, 1, 1, 0)]
-    assert all(spaces.coherent(c) for c in cheap_hgt)
+    # full losses dearer than segmental ones, and all five unit costs pairwise distinct (a table entry that uses the wrong
+    # loss cost cannot coincide with the right one)
+    uneven = [(0, 1, 1, 2, 1), spaces.CV_DISTINCT]
+    assert all(spaces.coherent(c) for c in cheap_hgt + uneven)
     out = []
     o3, o2 = spaces.ordered_syntenies(3), spaces.ordered_syntenies(2)
     if tier == "quick":
-        out += L.split_plan("labelled:O3x2x3", spaces.shape_pairs(3, 2), o3, 150, {"mode": "lab", "costs": [core[0], core[2], core[7], cheap_hgt[0]]})
+        out += L.split_plan("labelled:O3x2x3", spaces.shape_pairs(3, 2), o3, 150, {"mode": "lab", "costs": [core[0], core[2], core[7], cheap_hgt[0]] + uneven})
+        # 5 object leaves in a chain on one species, every leaf holding one family or all three (nested INHERIT nodes in
+        # the unordered optimum while the ordered optimum is known to be attainable)
+        menu5 = [("a",), ("b",), ("c",), ("a", "b", "c")]
+        out += L.split_plan("labelled:O5chainx1x{a,b,c,abc}", [(sh, None) for sh in spaces.chain_shapes(5)], menu5, 40,
+                            {"mode": "lab", "costs": [core[0]]})
         for osh, ssh in spaces.shape_pairs(4, 3):
-            out.append({"slice": "single-family:P4x3", "mode": "single", "osh": osh, "ssh": ssh, "costs": core[:4] + [core[7]] + cheap_hgt})
+            out.append({"slice": "single-family:P4x3", "mode": "single", "osh": osh, "ssh": ssh, "costs": core[:4] + [core[7]] + cheap_hgt + uneven})
         return out
-    out += L.split_plan("labelled:O3x3x3", spaces.shape_pairs(3, 3), o3, 100, {"mode": "lab", "costs": core + cheap_hgt})
+    out += L.split_plan("labelled:O3x3x3", spaces.shape_pairs(3, 3), o3, 100, {"mode": "lab", "costs": core + cheap_hgt + uneven})
+    out += L.split_plan("labelled:O5chainx1x{a,b,c,abc}", [(sh, None) for sh in spaces.chain_shapes(5)],
+                        [("a",), ("b",), ("c",), ("a", "b", "c")], 40, {"mode": "lab", "costs": [core[0], core[2]]})
     out += L.split_plan("labelled:O4x3x2", spaces.shape_pairs(4, 3, min_obj=4), o2, 100, {"mode": "lab", "costs": core[:4] + [core[7]] + cheap_hgt[:2]})
     for osh, ssh in spaces.shape_pairs(4, 4):
-        out.append({"slice": "single-family:P4x4", "mode": "single", "osh": osh, "ssh": ssh, "costs": core + cheap_hgt})
+        out.append({"slice": "single-family:P4x4", "mode": "single", "osh": osh, "ssh": ssh, "costs": core + cheap_hgt + uneven})
     for osh, ssh in spaces.shape_pairs(5, 3, min_obj=5):
         out.append({"slice": "single-family:P5x3", "mode": "single", "osh": osh, "ssh": ssh, "costs": core[:3] + [core[7]] + cheap_hgt[:2]})
     return out
